@@ -67,7 +67,8 @@ CF       == [lb |-> 0, ub |-> 0, lbInf |-> TRUE, ubInf |-> TRUE, int |-> FALSE]
 Space(id) ==
   CASE id = "finite"  -> [intNorm |-> FALSE, comps |-> <<C(-2, 2), C(0, 2)>>]
     [] id = "equal"   -> [intNorm |-> FALSE, comps |-> <<C(-2, 2), C(3, 3)>>]
-    [] id = "halfinf" -> [intNorm |-> FALSE, comps |-> <<C(-1, 0), CL(0)>>]
+    \* half-bounded components with a NON-ZERO finite bound (not normalised, never shifted)
+    [] id = "halfinf" -> [intNorm |-> FALSE, comps |-> <<C(-1, 0), CL(1)>>]
     [] id = "inf"     -> [intNorm |-> FALSE, comps |-> <<CF, CU(2)>>]
     [] id = "int"     -> [intNorm |-> FALSE, comps |-> <<C(-2, 2), CI(0, 4)>>]
     [] id = "intnorm" -> [intNorm |-> TRUE,  comps |-> <<C(-2, 2), CI(0, 4)>>]
@@ -80,7 +81,7 @@ Space(id) ==
 PhysPts(id) ==
   CASE id = "finite"  -> << <<R(1, 1), R(1, 2)>>,   <<R(-1, 2), R(2, 1)>>,  <<R(1, 2), R(1, 1)>> >>
     [] id = "equal"   -> << <<R(1, 1), R(3, 1)>>,   <<R(-1, 2), R(3, 1)>>,  <<R(1, 4), R(3, 1)>> >>
-    [] id = "halfinf" -> << <<R(-1, 2), R(3, 2)>>,  <<R(-1, 4), R(3, 1)>>,  <<R(0, 1), R(0, 1)>> >>
+    [] id = "halfinf" -> << <<R(-1, 2), R(3, 2)>>,  <<R(-1, 4), R(3, 1)>>,  <<R(0, 1), R(1, 1)>> >>
     [] id = "inf"     -> << <<R(3, 2), R(-1, 2)>>,  <<R(-2, 1), R(2, 1)>>,  <<R(1, 4), R(1, 1)>> >>
     [] id = "int"     -> << <<R(1, 2), R(5, 2)>>,   <<R(1, 2), R(2, 1)>>,   <<R(-9, 8), R(7, 2)>> >>
     [] id = "intnorm" -> << <<R(1, 2), R(5, 2)>>,   <<R(1, 2), R(2, 1)>>,   <<R(-9, 8), R(7, 2)>> >>
